@@ -178,6 +178,13 @@ def build_cases(tier, seed):
         cli.append((fam + '_cli', label, 'cli', src, R.opts()))
     for label, src in nested[-20:]:
         cli.append(('nesting_cli', label, 'cli', src, R.opts()))
+    # source FILES that are not valid UTF-8 (fixed inputs besides the random ones)
+    for label, b in (('latin1_in_string', b'empty @is_you() { writeln("caf\xe9"); }\n'), ('lone_ff', b'\xff'),
+                     ('bad_utf8_in_comment', b'// \xc3\x28\nempty @is_you() { }\n'),
+                     ('utf16_file', 'empty @is_you() { }\n'.encode('utf-16')),
+                     ('truncated_utf8_at_eof', b'empty @is_you() { } // \xe2\x82')):
+        cases.append(('special_bytes', label, 'main', b, R.opts(inp='undecodable')))
+        cli.append(('special_bytes', label, 'cli', b, R.opts(inp='undecodable')))
     return cases + cli
 
 
